@@ -39,6 +39,10 @@ const (
 	opResolverError
 	opExitIdle
 	opClose
+	// in-flight child->parent calls (unit "inflight", see c33_inflight_test.go)
+	opAsync      // a child starts a parent-facing call on its own goroutine; the parent holds it open
+	opRelease    // the parent lets the k-th held call return
+	opReportHeld // a child that has a held call reports a state
 )
 
 type op struct {
@@ -50,6 +54,9 @@ type op struct {
 
 type plan struct {
 	Ops []op `json:"ops"`
+	// ReleaseFirst: calls still held open when the op list ends are released
+	// before (true) or after (false) the final gsb.Close.
+	ReleaseFirst bool `json:"release_first,omitempty"`
 }
 
 var connStates = []connectivity.State{connectivity.Ready, connectivity.Connecting, connectivity.TransientFailure, connectivity.Idle}
@@ -105,6 +112,12 @@ type mChild struct {
 	picker   *stubs.Picker // nil until the first report
 	scs      []*fakecc.SubConn
 	reported bool
+	// created: every SubConn the parent created for an in-flight (held)
+	// NewSubConn call of this child, whatever became of the call.
+	created []*fakecc.SubConn
+	// orphans: SubConns of in-flight NewSubConn calls that returned after the
+	// child had been closed.
+	orphans []*fakecc.SubConn
 }
 
 type fwd struct {
@@ -122,6 +135,16 @@ type model struct {
 	// statistics
 	holds, swapByPending, swapByCurrent, pendingReplaced, goneReports, inlineReports, droppedSC int
 	gracefulPendings                                                                           map[*mChild]bool
+	// in-flight calls
+	held []*heldCall
+	inflightStats
+}
+
+// retire marks mc closed (by a swap / replacement when bySwitch, else by
+// gsb.Close) and notes which of its parent-facing calls are held open.
+func (m *model) retire(mc *mChild, bySwitch bool) {
+	mc.role = roleGone
+	m.noteClosedWhileHeld(mc, bySwitch)
 }
 
 func (m *model) swap() {
@@ -129,7 +152,7 @@ func (m *model) swap() {
 	m.current = m.pending
 	m.current.role = roleCurrent
 	m.pending = nil
-	old.role = roleGone
+	m.retire(old, true)
 }
 
 // built is called from the stub Build hook: the new child takes its role.
@@ -142,7 +165,7 @@ func (m *model) built(c *stubs.Child) *mChild {
 		m.current = mc
 	} else {
 		if m.pending != nil {
-			m.pending.role = roleGone
+			m.retire(m.pending, true)
 			m.pendingReplaced++
 		}
 		mc.role = rolePending
@@ -228,21 +251,24 @@ func (m *model) selectChild(a int) *mChild {
 	return m.all[a%len(m.all)]
 }
 
-func run(t *testing.T, p plan) vk.Result {
+func run(t *testing.T, p plan) vk.Result { return runMode(t, p, false) }
+
+func runMode(t *testing.T, p plan, inflight bool) vk.Result {
 	var res vk.Result
-	msg := vk.Bubble(t, func(t *testing.T) { res = runInBubble(p) })
+	msg := vk.Bubble(t, func(t *testing.T) { res = runInBubble(p, inflight) })
 	if msg != "" && res.Violation == "" {
 		return vk.Bad("bubble did not drain cleanly (goroutine leak / panic): %s", msg)
 	}
 	return res
 }
 
-func runInBubble(p plan) (res vk.Result) {
+func runInBubble(p plan, inflightUnit bool) (res vk.Result) {
 	hub := stubs.NewHub()
 	defer hub.Release()
 	cc := fakecc.New(hub.Key())
 	gsb := gracefulswitch.NewBalancer(cc, hub.BuildOptions())
 	m := &model{byChild: map[*stubs.Child]*mChild{}, gracefulPendings: map[*mChild]bool{}}
+	fl := newFlight(m, cc)
 
 	inlineBuild, inlineUpdate := -1, -1
 	doReport := func(mc *mChild, s connectivity.State) {
@@ -273,21 +299,30 @@ func runInBubble(p plan) (res vk.Result) {
 	closeGSB := func() {
 		m.closed = true
 		if m.current != nil {
-			m.current.role = roleGone
+			m.retire(m.current, false)
 		}
 		if m.pending != nil {
-			m.pending.role = roleGone
+			m.retire(m.pending, false)
 		}
 		m.current, m.pending = nil, nil
 		gsb.Close()
 	}
 	closedByPlan := false
 	defer func() {
-		// Always leave the bubble clean, whatever the verdict.
+		// Always leave the bubble clean, whatever the verdict. Calls still
+		// held open are released before or after the final Close (plan).
+		if p.ReleaseFirst {
+			if v := fl.releaseAll("final(release before Close)"); v != "" && res.Violation == "" {
+				res = vk.Bad("%s", v)
+			}
+		}
 		if !m.closed {
 			closeGSB()
 		}
 		synctest.Wait()
+		if v := fl.releaseAll("final(release after Close)"); v != "" && res.Violation == "" {
+			res = vk.Bad("%s", v)
+		}
 		if res.Violation == "" {
 			if v := checkQuiescent(m, hub, cc, "final"); v != "" {
 				res = vk.Bad("%s", v)
@@ -300,7 +335,11 @@ func runInBubble(p plan) (res vk.Result) {
 			}
 		}
 		res.Classes = append(res.Classes, classes(m, closedByPlan)...)
+		res.Classes = append(res.Classes, m.inflightClasses()...)
 		res.NonTrivial = len(m.gracefulPendings) >= 2
+		if inflightUnit {
+			res.NonTrivial = m.closedBySwitchWhileHeld > 0
+		}
 	}()
 
 	nAddr := 0
@@ -452,6 +491,27 @@ func runInBubble(p plan) (res vk.Result) {
 			}
 			closedByPlan = true
 			closeGSB()
+		case opAsync:
+			nAddr++
+			if v := fl.start(o, fmt.Sprintf("10.1.0.%d:80", nAddr), desc); v != "" {
+				return vk.Bad("%s", v)
+			}
+		case opRelease:
+			if len(m.held) == 0 {
+				continue
+			}
+			if v := fl.release(m.held[o.A%len(m.held)], desc); v != "" {
+				return vk.Bad("%s", v)
+			}
+		case opReportHeld:
+			if len(m.held) == 0 {
+				continue
+			}
+			h := m.held[o.A%len(m.held)]
+			if h.reached && (m.closed || h.mc.role == roleGone) {
+				m.reportsClosedWhileHeld++
+			}
+			doReport(h.mc, stateFor(h.mc, o.B))
 		}
 		synctest.Wait()
 		res.Steps++
@@ -499,6 +559,11 @@ func ownerOf(m *model, sc *fakecc.SubConn) *mChild {
 				return mc
 			}
 		}
+		for _, s := range mc.created {
+			if s == sc {
+				return mc
+			}
+		}
 	}
 	return nil
 }
@@ -535,6 +600,11 @@ func checkQuiescent(m *model, hub *stubs.Hub, cc *fakecc.CC, desc string) string
 			for _, sc := range mc.scs {
 				if !sc.ShutdownCalled() {
 					return fmt.Sprintf("%s: %v created by closed %v was not shut down", desc, sc, mc.c)
+				}
+			}
+			for _, sc := range mc.orphans {
+				if !sc.ShutdownCalled() {
+					return fmt.Sprintf("%s: %v, whose creation by %v was in flight while that child was closed, was not shut down (leak)", desc, sc, mc.c)
 				}
 			}
 		} else if n != 0 {
